@@ -231,7 +231,8 @@ func (c SrvCfg) Expect(r Req) SrvExpect {
 	if r.V("host") != "absent" {
 		status(c.V("onhost"))
 	}
-	if r.V("extra") != "none" {
+	if r.V("extra") != "none" || r.V("key") == "foldname" || r.V("wsversion") == "foldname" {
+		// a header the upgrader does not know (incl. a look-alike of a known one) goes to OnHeader
 		status(c.V("onheader"))
 	}
 	status(c.V("onbefore"))
